@@ -343,6 +343,12 @@ func (cliStream) Execute(c Case) {
 		format, _ := c["format"].(string)
 		ociFile := filepath.Join(cacheRoot, "config.json")
 		data, _ := json.Marshal(mk())
+		if len(patterns)%2 == 1 {
+			// an OCI spec written by a newer runtime: members this tool's runtime-spec version does not know, a vendor
+			// extension, a member given twice - the library would never see them; the tool injects all the same
+			data = append([]byte(`{"x-vendor-extension":{"k":[1,2]},"ociVersion":"1.0.0",`), data[1:]...)
+			data = []byte(strings.Replace(string(data), `"process":{`, `"process":{"execCPUAffinity":{"initial":"0-1"},`, 1))
+		}
 		_ = os.WriteFile(ociFile, data, 0o644)
 		matches := map[string]bool{}
 		for _, d := range cache.ListDevices() {
